@@ -161,10 +161,15 @@ impl Scope for RotBucket {
 /// and whose `p` populated directories form one contiguous run ending there.
 fn build_vols(site: &str, newest: usize, p: usize, t0: i64, spacing: i64, rng: &mut Rng) -> std::collections::BTreeMap<usize, Vec<Obj>> {
     let mut vols = std::collections::BTreeMap::new();
+    let wandering_clock = rng.chance(1, 4);
     for j in 0..p {
         let v = (newest + 999 - 1 - j) % 999 + 1; // going backwards from the newest, 1..=999
         let when = t0 - (j as i64) * spacing - if spacing >= 300_000 { rng.below(200_000) as i64 } else { 0 };
-        let c = crate::cal::civil_from_epoch_ms(when);
+        // the time in a chunk's *name* is the radar's clock when the volume began; it is the upload
+        // time (LastModified) that orders the directories.  In a quarter of the buckets the radar
+        // clock wanders (set back or forward by up to two hours from one volume to the next).
+        let radar_clock = if wandering_clock { when + (crate::rng::mix(j as u64, t0 as u64) % 14_400_000) as i64 - 7_200_000 } else { when };
+        let c = crate::cal::civil_from_epoch_ms(radar_clock);
         let name = format!("{:04}{:02}{:02}-{:02}{:02}{:02}-001-S", c.year, c.month, c.day, c.hour, c.minute, c.second);
         let mut objs = vec![Obj { key: format!("{}/{}/{}", site, v, name), last_modified: s3sim::rfc3339(when, spacing < 1_000 || j % 2 == 0), size: "1234".into() }];
         // later chunks of the same volume (must not be the one consulted: max-keys=1 returns the first)
